@@ -34,6 +34,7 @@ type Contract struct {
 	Modifies   []string
 	Flags      map[string]string // assumed, inline, trace, ...
 	Loops      map[int][]Clause  // loop ordinal (1-based, source order) -> invariants
+	Steps      map[int][]Clause  // loop ordinal -> per-iteration clauses (old() = state at the start of the iteration)
 	LoopMods   map[int][]string
 	Guards     []guardSpec
 	Emits      []Clause // ghost events appended to the trace, in order (assumed contracts of hook interfaces)
@@ -72,7 +73,7 @@ func NewContractSet() *ContractSet {
 var labelRe = regexp.MustCompile(`^(\w+)\[([^\]]+)\]\s*(.*)$`)
 
 var clauseKinds = map[string]bool{"requires": true, "ensures": true, "invariant": true, "nopanic": true,
-	"modifies": true, "flag": true, "before": true, "emits": true, "hyp": true, "goal": true, "cover": true, "loopmodifies": true}
+	"modifies": true, "flag": true, "before": true, "emits": true, "step": true, "hyp": true, "goal": true, "cover": true, "loopmodifies": true}
 
 // LoadContractFile parses one contract file; pkgPath is the import path its designators are relative to
 // ("" for library files that use fully qualified designators).
@@ -171,6 +172,11 @@ func (cs *ContractSet) LoadContractFile(path, pkgPath string) error {
 			cur.Emits = append(cur.Emits, c)
 		case "ensures":
 			cur.Ensures = append(cur.Ensures, c)
+		case "step":
+			if curLoop == 0 {
+				return fmt.Errorf("%s:%d: step outside loop", path, p.line)
+			}
+			cur.Steps[curLoop] = append(cur.Steps[curLoop], c)
 		case "invariant":
 			if curLoop == 0 {
 				return fmt.Errorf("%s:%d: invariant outside loop", path, p.line)
@@ -213,7 +219,7 @@ func (cs *ContractSet) LoadContractFile(path, pkgPath string) error {
 			if pkgPath != "" {
 				q = Qualify(pkgPath, des)
 			}
-			cur = &Contract{Designator: des, Func: q, Pkg: pkgPath, Flags: map[string]string{}, Loops: map[int][]Clause{}, LoopMods: map[int][]string{}, File: path, Line: ln}
+			cur = &Contract{Designator: des, Func: q, Pkg: pkgPath, Flags: map[string]string{}, Loops: map[int][]Clause{}, Steps: map[int][]Clause{}, LoopMods: map[int][]string{}, File: path, Line: ln}
 			if old, dup := cs.ByFunc[q]; dup {
 				return fmt.Errorf("%s:%d: duplicate contract for %s (first at %s:%d)", path, ln, q, old.File, old.Line)
 			}
